@@ -3,8 +3,8 @@
    level up, large groups their own) and the matching loop of GaussianElectionModel.get_aggregate_prediction_intervals
    (from the finest level upwards, cross join at the top).  Calibration units are identified by an index;
    the statistics (_fit, norm.ppf, scipy bootstrap) are oracles. *)
-From Coq Require Import ZArith QArith List Bool String Arith.
-From Elex Require Import Base.Frame.
+From Coq Require Import ZArith QArith Qminmax List Bool String Arith.
+From Elex Require Import Base.Frame Base.QRound Model.Compare.
 Import ListNotations.
 
 Definition cal := (key * nat)%type.          (* full (finest) key of a calibration unit, its index *)
@@ -86,3 +86,12 @@ Definition check_assign (k : nat) (conf : list cal) (nu : list key) (g : key) (l
                      && (let (j', ids') := rule k conf g in Nat.eqb j j' && Nat.eqb (List.length ids) (List.length ids'))
   | None => false
   end.
+
+(* the reported aggregate bound (GaussianElectionModel.get_aggregate_prediction_intervals, last two steps):
+     max( sum of baselines + (summed unit bound -/+ normal quantile), votes already counted in the outstanding units )
+       + votes counted in the rest of the group,
+   rounded.  [ppfv] is the value norm.ppf returned for this group's row (oracle). *)
+Definition reported_bound (upper : bool) (unadjusted wsum ppfv vn rest : Q) : Q :=
+  Qmax (wsum + (if upper then unadjusted + ppfv else unadjusted - ppfv)) vn + rest.
+Definition check_reported_bound (upper : bool) (unadjusted wsum ppfv vn rest : Q) (reported : Z) : bool :=
+  round_agrees (reported_bound upper unadjusted wsum ppfv vn rest) reported.
